@@ -5,6 +5,7 @@ From Coq Require Import ZArith List Bool String Reals.
 From VQ Require Import Num Model.Vec Model.Core Proofs.CoreEMA Glue.CoreGlue.
 From VQ Require Import Glue.Pin_fp_C03.
 From VQ Require Import Model.Blocks Proofs.BlockProofs.
+From VQ Require Import Model.B32 Proofs.B32Saturation.
 Import ListNotations.
 Open Scope R_scope.
 
@@ -284,3 +285,13 @@ Theorem C03_block_single_code_count :
        decay * @nth R j (@cluster_size R s) 0 + (1 - decay) * INR n.
 Proof. exact (@BlockProofs.block_single_code_count). Qed.
 Print Assumptions C03_block_single_code_count.
+
+Theorem C03_b32_counter_saturates :
+  forall n : nat, Nat.iter n (fun s : sf => b32_add s b32_one) b32_2p24 = b32_2p24.
+Proof. exact (@B32Saturation.b32_counter_saturates). Qed.
+Print Assumptions C03_b32_counter_saturates.
+
+Theorem C03_b32_below_2p24_exact :
+  b32_add (b32_of_Z 16777215) b32_one = b32_2p24.
+Proof. exact (@B32Saturation.b32_below_2p24_exact). Qed.
+Print Assumptions C03_b32_below_2p24_exact.
